@@ -2000,12 +2000,12 @@ theorem specPileup_length (sizes : List Nat) (ivs : List C10.Iv) :
 /-- **values under intervals**: per chromosome, slicing that chromosome's streamed pile-up under that
 chromosome's peaks and concatenating in genome order gives, for chromosome-sorted valid peaks, row for
 row the slices of the whole-genome in-memory pile-up under the peaks' global coordinates. -/
-theorem per_chromosome_values (sizes : List Nat) (ivs peaks : List C10.Iv) (cs pcs : List (List C10.Iv))
+theorem per_chromosome_values (stranded : Bool) (sizes : List Nat) (ivs peaks : List C10.Iv) (cs pcs : List (List C10.Iv))
     (hcs : IsChunking ivs cs) (hs : ivs.Pairwise (fun a b => a.c ≤ b.c)) (hv : ∀ iv ∈ ivs, iv.valid sizes = true)
     (hpcs : IsChunking peaks pcs) (hps : peaks.Pairwise (fun a b => a.c ≤ b.c))
     (hpv : ∀ iv ∈ peaks, iv.valid sizes = true) :
     ∃ dense, C10.pileupGlobal sizes ivs = some dense ∧
-      streamValues sizes cs pcs = omap (C10.extractRow sizes dense false) peaks := by
+      streamValues stranded sizes cs pcs = omap (C10.extractRow sizes dense stranded) peaks := by
   obtain ⟨hp, _⟩ := C10.cover_local sizes ivs hv
   obtain ⟨arrays, harr⟩ : ∃ arrays, arrays = (List.range sizes.length).map (C10.specPileupChrom sizes ivs) := ⟨_, rfl⟩
   have hlens : arrays.map List.length = sizes := by rw [harr]; exact specPileup_length sizes ivs
@@ -2015,10 +2015,10 @@ theorem per_chromosome_values (sizes : List Nat) (ivs peaks : List C10.Iv) (cs p
   refine ⟨_, rfl, ?_⟩
   rw [hpf]
   -- in memory: every row is the slice of its own chromosome's array
-  have hmem : omap (C10.extractRow sizes arrays.flatten false) peaks = some (peaks.map (C10.specExtractRow arrays false)) := by
+  have hmem : omap (C10.extractRow sizes arrays.flatten stranded) peaks = some (peaks.map (C10.specExtractRow arrays stranded)) := by
     apply omap_some_map
     intro iv hiv
-    have := C10.extract_reversed arrays false iv (by rw [hlens]; exact hpv iv hiv)
+    have := C10.extract_reversed arrays stranded iv (by rw [hlens]; exact hpv iv hiv)
     rw [hlens] at this
     exact this
   rw [hmem]
@@ -2033,9 +2033,11 @@ theorem per_chromosome_values (sizes : List Nat) (ivs peaks : List C10.Iv) (cs p
   simp only [streamValues, hb, hpb, hzp, Option.some.injEq, valuesRows]
   -- row by row
   have hk : arrays.length = sizes.length := by rw [harr]; simp
-  have hrows : List.zipWith (fun d pk => pk.map (fun iv : C10.Iv => (d.drop iv.s).take (iv.e - iv.s))) arrays
+  have hrows : List.zipWith (fun d pk => pk.map (fun iv : C10.Iv =>
+        let row := (d.drop iv.s).take (iv.e - iv.s)
+        if stranded && !iv.fwd then row.reverse else row)) arrays
       ((List.range sizes.length).map (fun c => peaks.filter (fun iv => iv.c = c)))
-      = (List.range sizes.length).map (fun c => (peaks.filter (fun iv => iv.c = c)).map (C10.specExtractRow arrays false)) := by
+      = (List.range sizes.length).map (fun c => (peaks.filter (fun iv => iv.c = c)).map (C10.specExtractRow arrays stranded)) := by
     apply List.ext_getElem
     · simp [hk]
     · intro i h1 h2
@@ -2044,11 +2046,11 @@ theorem per_chromosome_values (sizes : List Nat) (ivs peaks : List C10.Iv) (cs p
       apply List.map_congr_left
       intro iv hiv
       have hc : iv.c = i := by simpa using (List.mem_filter.mp hiv).2
-      simp only [C10.specExtractRow, Bool.false_and, Bool.false_eq_true, ↓reduceIte, hc,
+      simp only [C10.specExtractRow, hc,
         List.getD_eq_getElem?_getD, List.getElem?_eq_getElem (by omega : i < arrays.length), Option.getD_some]
   rw [hrows]
-  have : ((List.range sizes.length).map (fun c => (peaks.filter (fun iv => iv.c = c)).map (C10.specExtractRow arrays false))).flatten
-      = (((List.range sizes.length).map (fun c => peaks.filter (fun iv => iv.c = c))).flatten).map (C10.specExtractRow arrays false) := by
+  have : ((List.range sizes.length).map (fun c => (peaks.filter (fun iv => iv.c = c)).map (C10.specExtractRow arrays stranded))).flatten
+      = (((List.range sizes.length).map (fun c => peaks.filter (fun iv => iv.c = c))).flatten).map (C10.specExtractRow arrays stranded) := by
     rw [List.map_flatten, List.map_map]; rfl
   rw [this, List.range_eq_range', sorted_filter_concat sizes.length 0 peaks hps]
   intro iv hiv
